@@ -160,16 +160,111 @@ theorem parseSigned_showNat (n : Nat) : parseSigned (showNat n) = some (Int.ofNa
   · next h => exact absurd (List.cons.inj h).1 (digitChar_ne_plus d hd)
   · simp [hp]
 
-/-- `int(str(n)) == n` -/
-theorem parseInt_showInt (n : Int) : parseInt (showInt n) = some n := by
-  unfold parseInt
+/-! whitespace around a number text -/
+
+def noSpace (s : Str) : Bool := s.all fun c => !isSpace c
+
+theorem lstripWs_spaces (ws s : Str) (h : ws.all isSpace = true) : lstripWs (ws ++ s) = lstripWs s := by
+  induction ws with
+  | nil => rfl
+  | cons c cs ih =>
+    simp only [List.all_cons, Bool.and_eq_true] at h
+    simp only [List.cons_append, lstripWs, h.1, ↓reduceIte]
+    exact ih h.2
+
+theorem lstripWs_head (c : Char) (s : Str) (h : isSpace c = false) : lstripWs (c :: s) = c :: s := by
+  simp [lstripWs, h]
+
+/-- `(ws + s + ws').strip() == s` when `s` is non-empty and holds no whitespace -/
+theorem stripWs_pad (ws ws' s : Str) (hw : ws.all isSpace = true) (hw' : ws'.all isSpace = true) (hs : s ≠ [])
+    (hn : noSpace s = true) : stripWs (ws ++ s ++ ws') = s := by
+  have hmem : ∀ c ∈ s, isSpace c = false := by
+    intro c hc
+    have := (List.all_eq_true.mp hn) c hc
+    simpa using this
+  unfold stripWs
+  rw [List.append_assoc, lstripWs_spaces ws _ hw]
+  cases s with
+  | nil => exact absurd rfl hs
+  | cons c cs =>
+    rw [List.cons_append, lstripWs_head c _ (hmem c (by simp))]
+    rw [← List.cons_append, List.reverse_append]
+    have hwr : ws'.reverse.all isSpace = true := by simpa using hw'
+    rw [lstripWs_spaces _ _ hwr]
+    cases hr : (c :: cs).reverse with
+    | nil => simp at hr
+    | cons d ds =>
+      have hd : d ∈ c :: cs := by
+        have : d ∈ (c :: cs).reverse := by rw [hr]; simp
+        exact List.mem_reverse.mp this
+      rw [lstripWs_head d ds (hmem d hd), ← hr, List.reverse_reverse]
+
+theorem digitChar_noSpace : ∀ d, d < 10 → isSpace (digitChar d) = false := by decide
+
+theorem digitsAux_noSpace (f n : Nat) (rest : List Char) (hr : noSpace rest = true) :
+    noSpace (digitsAux f n rest) = true := by
+  induction f generalizing n rest with
+  | zero => simpa [digitsAux] using hr
+  | succ f ih =>
+    unfold digitsAux
+    by_cases h10 : n < 10
+    · simp only [h10, ↓reduceIte]
+      simp only [noSpace, List.all_cons, Bool.and_eq_true, Bool.not_eq_eq_eq_not, Bool.not_true]
+      exact ⟨digitChar_noSpace n h10, hr⟩
+    · simp only [h10, ↓reduceIte]
+      apply ih
+      have hm : n % 10 < 10 := Nat.mod_lt _ (by omega)
+      simp only [noSpace, List.all_cons, Bool.and_eq_true, Bool.not_eq_eq_eq_not, Bool.not_true]
+      exact ⟨digitChar_noSpace _ hm, hr⟩
+
+theorem showNat_ne_nil (n : Nat) : showNat n ≠ [] := by
+  obtain ⟨d, tl, _, he⟩ := digitsAux_head (n + 1) n [] (by omega)
+  unfold showNat; rw [he]; simp
+
+theorem noSpace_showInt (n : Int) : noSpace (showInt n) = true := by
+  cases n with
+  | ofNat m => exact digitsAux_noSpace _ _ _ rfl
+  | negSucc m =>
+    simp only [showInt, noSpace, List.all_cons, Bool.and_eq_true, Bool.not_eq_eq_eq_not, Bool.not_true]
+    exact ⟨by decide, digitsAux_noSpace _ _ _ rfl⟩
+
+theorem showInt_ne_nil (n : Int) : showInt n ≠ [] := by
+  cases n with
+  | ofNat m => exact showNat_ne_nil m
+  | negSucc m => simp [showInt]
+
+theorem parseSigned_showInt (n : Int) : parseSigned (showInt n) = some n := by
   cases n with
   | ofNat m => simp [showInt, parseSigned_showNat]
   | negSucc m =>
-    have : parseSigned (showInt (Int.negSucc m)) = some (Int.negSucc m) := by
-      simp only [showInt, parseSigned, parseDigits_showNat, Option.map_some]
-      rfl
-    simp [this]
+    simp only [showInt, parseSigned, parseDigits_showNat, Option.map_some]
+    rfl
+
+/-- `int(ws + str(n) + ws') == n` for any surrounding whitespace -/
+theorem parseInt_padded (n : Int) (ws ws' : Str) (hw : ws.all isSpace = true) (hw' : ws'.all isSpace = true) :
+    parseInt (ws ++ showInt n ++ ws') = some n := by
+  unfold parseInt
+  rw [stripWs_pad ws ws' _ hw hw' (showInt_ne_nil n) (noSpace_showInt n), parseSigned_showInt]
+
+/-- `int(str(n)) == n` -/
+theorem parseInt_showInt (n : Int) : parseInt (showInt n) = some n := by
+  have := parseInt_padded n [] [] rfl rfl
+  simpa using this
+
+/-- `int("+" + str(n)) == n` for a non-negative n -/
+theorem parseInt_plus (m : Nat) : parseInt ('+' :: showNat m) = some (Int.ofNat m) := by
+  unfold parseInt
+  have hs : stripWs ('+' :: showNat m) = '+' :: showNat m := by
+    have := stripWs_pad [] [] ('+' :: showNat m) rfl rfl (by simp) (by
+      simp only [noSpace, List.all_cons, Bool.and_eq_true, Bool.not_eq_eq_eq_not, Bool.not_true]
+      exact ⟨by decide, digitsAux_noSpace _ _ _ rfl⟩)
+    simpa using this
+  rw [hs]
+  simp [parseSigned, parseDigits_showNat]
+
+theorem isSpace_ascii (c : Char) (h : isSpace c = true) : c.toNat < 128 := by
+  simp only [isSpace, Bool.or_eq_true, decide_eq_true_eq] at h
+  rcases h with ((((((((h | h) | h) | h) | h) | h) | h) | h) | h) | h <;> subst h <;> decide
 
 theorem isAscii_showInt (n : Int) : isAscii (showInt n) = true := by
   cases n with
